@@ -9,6 +9,7 @@ import Ops.MeshTools
 import Ops.Symbols
 import Ops.IO
 import Ops.SeqEnc
+import Ops.EncBuf
 /- Line-protocol driver of the executable model: one op per line in, one line out. -/
 open Draco
 
@@ -23,7 +24,8 @@ def allOps : List (String × (List String → String)) := List.flatten [
   Ops.meshToolOps,
   Ops.symbolOps,
   Ops.ioOps,
-  Ops.seqEncOps]
+  Ops.seqEncOps,
+  Ops.encBufOps]
 
 def dispatch (line : String) : String :=
   match (line.trimAscii.toString.splitOn " ").filter (· ≠ "") with
